@@ -59,3 +59,40 @@ pub fn unlimbs(l: &[u64]) -> u64 {
     const B: u64 = 1_000_000_000;
     l[0].wrapping_mul(B * B).wrapping_add(l[1] * B).wrapping_add(l[2])
 }
+
+/// Process-wide watchdog: if `beat` is not called for `secs` seconds the current phase is
+/// reported on stdout as a JSON line {"hang": phase} and the process exits with code 3.
+pub mod watchdog {
+    use std::sync::atomic::{AtomicU64, Ordering};
+    use std::sync::Mutex;
+    static BEATS: AtomicU64 = AtomicU64::new(0);
+    static PHASE: Mutex<String> = Mutex::new(String::new());
+    pub fn start(secs: u64) {
+        std::thread::spawn(move || {
+            let mut last = BEATS.load(Ordering::SeqCst);
+            let mut idle = 0;
+            loop {
+                std::thread::sleep(std::time::Duration::from_secs(1));
+                let cur = BEATS.load(Ordering::SeqCst);
+                if cur == last {
+                    idle += 1;
+                    if idle >= secs {
+                        let phase = PHASE.lock().map(|p| p.clone()).unwrap_or_default();
+                        println!("{}", serde_json::json!({"hang": phase, "idle_s": idle}));
+                        std::process::exit(3);
+                    }
+                } else {
+                    idle = 0;
+                    last = cur;
+                }
+            }
+        });
+    }
+    pub fn beat(phase: &str) {
+        if let Ok(mut p) = PHASE.lock() {
+            p.clear();
+            p.push_str(phase);
+        }
+        BEATS.fetch_add(1, Ordering::SeqCst);
+    }
+}
